@@ -10,11 +10,15 @@ from common import Check, run_impl, standard_proof_step, TRUSTED_COMMON, ROOT
 import genmodels as G
 
 IMPORTS = ("From XV Require Import Base.Str Model.Bind Model.Parser Model.ParserCorr Model.Reader Model.ReaderCorr "
-           "Model.ParserInvCorr Proofs.ParserInvWs Proofs.ParserInvAttrs.")
+           "Model.ParserInvCorr Proofs.ParserInvWs Proofs.ParserInvAttrs Proofs.ParserCtx Proofs.ParserCtxGuard.")
 GUARD_DEFS = """
 Definition ws_guard (x : c09_case) : bool :=
   let '(cfg, t, u, root, e1, e2, _, _) := x in
   ws_variant_n (length e1) cfg (conv_of_table t) u root init_state e1 e2.
+Definition rename_guard (x : c09_case) : bool :=
+  let '(_, t, u, _, e1, e2, _, _) := x in
+  no_xsi_type_attr u
+  && forallb2 (renamedb (all_prefixes e1 ++ all_prefixes e2) (conv_of_table t)) (strip_ns e1) (strip_ns e2).
 Definition attrs_guard (x : c09_case) : bool :=
   let '(_, _, u, _, _, _, _, _) := x in universe_ok u && perm_guard x.
 (* Python equality of the two observed objects: dicts compare as finite maps (value_eqb_dict is proved sound
@@ -82,10 +86,10 @@ def guard_check(ck, fut):
                 meta.append((j, c))
             else:
                 stats["unsupported"] += 1
-    checks = {k: k for k in ["model_agrees", "model_same", "obs_same", "obs_same_dict", "ws_guard", "maps_guard", "attrs_guard"]}
+    checks = {k: k for k in ["model_agrees", "model_same", "obs_same", "obs_same_dict", "ws_guard", "maps_guard", "attrs_guard", "rename_guard"]}
     bad = common.coq_bad_matrix("c09_guard", IMPORTS, "\n".join(defs) + GUARD_DEFS, "c09_case", checks, terms)
     badsets = {k: set(v) for k, v in bad.items()}
-    guard_of = {"ws": "ws_guard", "redecl": "maps_guard", "attrs": "attrs_guard"}
+    guard_of = {"ws": "ws_guard", "redecl": "maps_guard", "attrs": "attrs_guard", "rename": "rename_guard"}
     for i, (j, c) in enumerate(meta):
         kind = c["kind"]
         st = stats["by_kind"].setdefault(kind, {"pairs": 0, "guard_true": 0, "streams_differ": 0, "outcomes_differ": 0})
@@ -109,7 +113,7 @@ def guard_check(ck, fut):
             cls = f"theorem-contradicted-{kind}" if g else f"rewrite-{kind}-outside-guard"
             ck.failure(cls, f"({kind}) rewrite changes the parsed object (hypothesis of the theorem {'holds' if g else 'does not hold'} on the "
                             f"recorded streams): {c['summary']}", rp)
-        elif not g and kind in ("ws", "redecl", "attrs"):
+        elif not g and kind in ("ws", "redecl", "attrs", "rename"):
             ck.failure(f"guard-false-on-{kind}-rewrite", f"the hypothesis of the ({kind}) theorem does not hold on a rewrite the oracle applies: "
                                                          f"{c['doc'][:200]!r} vs {c['doc2'][:200]!r}", rp)
     stats["pairs"] = len(terms)
@@ -125,7 +129,7 @@ def run(ck: Check):
     obligations, discharged, axioms = 0, 0, []
     pool = cf.ThreadPoolExecutor(max_workers=1)
     fut = pool.submit(run_guard_jobs, guard_jobs(ck))          # the implementation runs while the proofs are checked
-    extra = ["Model/ParserInvCorr.vo", "Proofs/ParserInvWs.vo", "Proofs/ParserInvAttrs.vo"]
+    extra = ["Model/ParserInvCorr.vo", "Proofs/ParserInvWs.vo", "Proofs/ParserInvAttrs.vo", "Proofs/ParserCtxGuard.vo"]
     if os.path.exists(os.path.join(ROOT, "coq", "Properties", "C09.v")):
         obligations, discharged, axioms = standard_proof_step(ck, extra_targets=extra)
     else:
